@@ -1,13 +1,22 @@
 ------------------------------- MODULE MC_ZKV -------------------------------
 (* Bounded instances of ZKV, one per data type (cfg MC_ZKV_<type>.cfg selects   *)
-(* the SPECIFICATION).  Every command is a *named* action whose primed          *)
-(* assignment sits directly in it, so that TLC's `-dump dot,actionlabels`       *)
-(* labels each edge with the command and its arguments: label args are          *)
-(* (key, command args..., log tick) for writes and (key, args...) for reads;    *)
-(* the lower-cased action name is the command name ("AppendV" = append).        *)
-(* harness smsim walks every edge of the dumped graph on the real state machine.*)
-(* The model theorems of ZKV are checked as invariants by quantifying over the  *)
-(* commands of the instance in every reachable state.                           *)
+(* the SPECIFICATION; MC_ZKV_<type>_dup.cfg is the same instance with commands  *)
+(* that may repeat a field/member/key; MC_ZKV_ld.cfg is the local-deletion      *)
+(* instance with the background scan).  Every WRITE command is a *named* action *)
+(* whose primed assignment sits directly in it, so that TLC's                   *)
+(* `-dump dot,actionlabels` labels each edge with the command and its           *)
+(* arguments: (key, command args..., log tick); the lower-cased action name is  *)
+(* the command name ("AppendV" = append).  The state is the data alone (no      *)
+(* recorded operation, hence no VIEW is needed).  harness smsim walks every     *)
+(* edge of the dumped graph on the real state machine and fires the product of  *)
+(* READ commands on the first visit of each distinct state (reads are not       *)
+(* edges: they would only be self-loops).                                       *)
+(* Key 1 takes the full command set, the other keys a few basic commands (they  *)
+(* exist for cross-key interference); this keeps each graph below ~320 000      *)
+(* transitions.                                                                 *)
+(* The model theorems of ZKV are checked in every reachable state (INVARIANTS    *)
+(* of the cfg) and, for ErrorChangesNothing / KeysIndependent, on every         *)
+(* transition TLC takes (Assert in StepOK).                                     *)
 EXTENDS ZKV
 
 CONSTANTS Subs,      \* field / member ids
@@ -28,7 +37,11 @@ vars == <<db>>
 
 Init == db = InitDB
 
-SmallV(v) == Len(v) <= MaxLen /\ (IsNum(v) => (NumVal(v) <= MaxNum /\ NumVal(v) >= 0 - MaxNum))
+\* decimal numerals with leading zeros ('01', '-0'): Redis does not take them for integers, the store's
+\* parser does (recorded finding kv-incr-noncanonical-numeral); kept out of the graphs
+NonCanon(v) == \/ (IsDigits(v) /\ Len(v) > 1 /\ v[1] = 0)
+               \/ (Len(v) >= 2 /\ v[1] = MINUS /\ IsDigits(Tail(v)) /\ Tail(v)[1] = 0)
+SmallV(v) == Len(v) <= MaxLen /\ ~NonCanon(v) /\ (IsNum(v) => (NumVal(v) <= MaxNum /\ NumVal(v) >= 0 - MaxNum))
 Small(d) == \A k \in Keys :
   /\ SmallV(d.kv[k].v)
   /\ \A f \in DOMAIN d.hs[k].f : SmallV(d.hs[k].f[f])
@@ -59,13 +72,13 @@ SetX(k, v, d, m, t) == Ok("setx", k, <<v, d, m>>, t) /\ db' = Nx("setx", k, <<v,
 SetEx(k, d, v, t)   == Ok("setex", k, <<d, v>>, t) /\ db' = Nx("setex", k, <<d, v>>, t).db
 SetNx(k, v, t)      == Ok("setnx", k, <<v>>, t) /\ db' = Nx("setnx", k, <<v>>, t).db
 GetSet(k, v, t)     == Ok("getset", k, <<v>>, t) /\ db' = Nx("getset", k, <<v>>, t).db
-MSet(k, v, k2, v2, t) == Ok("mset", k, <<v, k2, v2>>, t) /\ db' = Nx("mset", k, <<v, k2, v2>>, t).db
+MSet(k, v, k2, v2, t) == DupOk(k, k2) /\ Ok("mset", k, <<v, k2, v2>>, t) /\ db' = Nx("mset", k, <<v, k2, v2>>, t).db
 Incr(k, t)          == Ok("incr", k, <<>>, t) /\ db' = Nx("incr", k, <<>>, t).db
 IncrBy(k, d, t)     == Ok("incrby", k, <<d>>, t) /\ db' = Nx("incrby", k, <<d>>, t).db
 AppendV(k, v, t)    == Ok("append", k, <<v>>, t) /\ db' = Nx("append", k, <<v>>, t).db
 SetRange(k, o, v, t) == Ok("setrange", k, <<o, v>>, t) /\ db' = Nx("setrange", k, <<o, v>>, t).db
 Del(k, t)           == Ok("del", k, <<>>, t) /\ db' = Nx("del", k, <<>>, t).db
-Del2(k, k2, t)      == Ok("del2", k, <<k2>>, t) /\ db' = Nx("del2", k, <<k2>>, t).db
+Del2(k, k2, t)      == DupOk(k, k2) /\ Ok("del2", k, <<k2>>, t) /\ db' = Nx("del2", k, <<k2>>, t).db
 Expire(k, d, t)     == Ok("expire", k, <<d>>, t) /\ db' = Nx("expire", k, <<d>>, t).db
 Persist(k, t)       == Ok("persist", k, <<>>, t) /\ db' = Nx("persist", k, <<>>, t).db
 
@@ -79,10 +92,10 @@ NextKV ==
        \/ \E v \in VIds : Set(k, v, t) \/ SetNx(k, v, t) \/ GetSet(k, v, t) \/ AppendV(k, v, t)
        \/ \E v \in VIds, d \in Durs : SetEx(k, d, v, t)
        \/ \E v \in VIds, d \in {0} \cup Durs, m \in 0..2 : SetX(k, v, d, m, t)
-       \/ \E v \in VIds, k2 \in Keys, v2 \in VIds : DupOk(k, k2) /\ MSet(k, v, k2, v2, t)
-       \/ \E d \in {-1, 2} : IncrBy(k, d, t)
+       \/ \E v \in VIds, k2 \in Keys, v2 \in VIds : MSet(k, v, k2, v2, t)
+       \/ \E d \in {-1, 0, 2} : IncrBy(k, d, t)
        \/ \E v \in VIds, o \in {0, 1} : SetRange(k, o, v, t)
-       \/ \E k2 \in Keys : DupOk(k, k2) /\ Del2(k, k2, t)
+       \/ \E k2 \in Keys : Del2(k, k2, t)
        \/ \E d \in Durs : Expire(k, d, t)
 SpecKV == Init /\ [][NextKV]_vars
 
@@ -90,9 +103,9 @@ SpecKV == Init /\ [][NextKV]_vars
 \* hashes
 HSet(k, f, v, t)    == Ok("hset", k, <<f, v>>, t) /\ db' = Nx("hset", k, <<f, v>>, t).db
 HSetNx(k, f, v, t)  == Ok("hsetnx", k, <<f, v>>, t) /\ db' = Nx("hsetnx", k, <<f, v>>, t).db
-HMSet(k, f, v, g, w, t) == Ok("hmset", k, <<f, v, g, w>>, t) /\ db' = Nx("hmset", k, <<f, v, g, w>>, t).db
+HMSet(k, f, v, g, w, t) == DupOk(f, g) /\ Ok("hmset", k, <<f, v, g, w>>, t) /\ db' = Nx("hmset", k, <<f, v, g, w>>, t).db
 HDel(k, f, t)       == Ok("hdel", k, <<f>>, t) /\ db' = Nx("hdel", k, <<f>>, t).db
-HDel2(k, f, g, t)   == Ok("hdel2", k, <<f, g>>, t) /\ db' = Nx("hdel2", k, <<f, g>>, t).db
+HDel2(k, f, g, t)   == DupOk(f, g) /\ Ok("hdel2", k, <<f, g>>, t) /\ db' = Nx("hdel2", k, <<f, g>>, t).db
 HIncrBy(k, f, d, t) == Ok("hincrby", k, <<f, d>>, t) /\ db' = Nx("hincrby", k, <<f, d>>, t).db
 HClear(k, t)        == Ok("hclear", k, <<>>, t) /\ db' = Nx("hclear", k, <<>>, t).db
 HExpire(k, d, t)    == Ok("hexpire", k, <<d>>, t) /\ db' = Nx("hexpire", k, <<d>>, t).db
@@ -105,9 +118,9 @@ NextH ==
   \/ \E k \in FullKeys, t \in Times :
        \/ HClear(k, t) \/ HPersist(k, t)
        \/ \E f \in Subs, v \in VIds : HSet(k, f, v, t) \/ HSetNx(k, f, v, t)
-       \/ \E f, g \in Subs, v, w \in VIds : DupOk(f, g) /\ HMSet(k, f, v, g, w, t)
-       \/ \E f \in Subs : HDel(k, f, t) \/ HIncrBy(k, f, 1, t)
-       \/ \E f, g \in Subs : DupOk(f, g) /\ HDel2(k, f, g, t)
+       \/ \E f, g \in Subs, v, w \in VIds : HMSet(k, f, v, g, w, t)
+       \/ \E f \in Subs : HDel(k, f, t) \/ HIncrBy(k, f, 1, t) \/ HIncrBy(k, f, 0, t)
+       \/ \E f, g \in Subs : HDel2(k, f, g, t)
        \/ \E d \in Durs : HExpire(k, d, t)
 SpecH == Init /\ [][NextH]_vars
 
@@ -142,9 +155,9 @@ SpecL == Init /\ [][NextL]_vars
 -----------------------------------------------------------------------------
 \* sets
 SAdd(k, m, t)       == Ok("sadd", k, <<m>>, t) /\ db' = Nx("sadd", k, <<m>>, t).db
-SAdd2(k, m, n, t)   == Ok("sadd2", k, <<m, n>>, t) /\ db' = Nx("sadd2", k, <<m, n>>, t).db
+SAdd2(k, m, n, t)   == DupOk(m, n) /\ Ok("sadd2", k, <<m, n>>, t) /\ db' = Nx("sadd2", k, <<m, n>>, t).db
 SRem(k, m, t)       == Ok("srem", k, <<m>>, t) /\ db' = Nx("srem", k, <<m>>, t).db
-SRem2(k, m, n, t)   == Ok("srem2", k, <<m, n>>, t) /\ db' = Nx("srem2", k, <<m, n>>, t).db
+SRem2(k, m, n, t)   == DupOk(m, n) /\ Ok("srem2", k, <<m, n>>, t) /\ db' = Nx("srem2", k, <<m, n>>, t).db
 SPop(k, t)          == Ok("spop", k, <<>>, t) /\ db' = Nx("spop", k, <<>>, t).db
 SPopN(k, n, t)      == Ok("spopn", k, <<n>>, t) /\ db' = Nx("spopn", k, <<n>>, t).db
 SClear(k, t)        == Ok("sclear", k, <<>>, t) /\ db' = Nx("sclear", k, <<>>, t).db
@@ -158,7 +171,7 @@ NextS ==
   \/ \E k \in FullKeys, t \in Times :
        \/ SPop(k, t) \/ SClear(k, t) \/ SPersist(k, t)
        \/ \E m \in Subs : SAdd(k, m, t) \/ SRem(k, m, t)
-       \/ \E m, n \in Subs : DupOk(m, n) /\ (SAdd2(k, m, n, t) \/ SRem2(k, m, n, t))
+       \/ \E m, n \in Subs : SAdd2(k, m, n, t) \/ SRem2(k, m, n, t)
        \/ \E n \in {1, 2, 5} : SPopN(k, n, t)
        \/ \E d \in Durs : SExpire(k, d, t)
 SpecS == Init /\ [][NextS]_vars
@@ -166,10 +179,10 @@ SpecS == Init /\ [][NextS]_vars
 -----------------------------------------------------------------------------
 \* sorted sets (scores in half units)
 ZAdd(k, s, m, t)    == Ok("zadd", k, <<s, m>>, t) /\ db' = Nx("zadd", k, <<s, m>>, t).db
-ZAdd2(k, s, m, s2, m2, t) == Ok("zadd2", k, <<s, m, s2, m2>>, t) /\ db' = Nx("zadd2", k, <<s, m, s2, m2>>, t).db
+ZAdd2(k, s, m, s2, m2, t) == DupOk(m, m2) /\ Ok("zadd2", k, <<s, m, s2, m2>>, t) /\ db' = Nx("zadd2", k, <<s, m, s2, m2>>, t).db
 ZIncrBy(k, d, m, t) == Ok("zincrby", k, <<d, m>>, t) /\ db' = Nx("zincrby", k, <<d, m>>, t).db
 ZRem(k, m, t)       == Ok("zrem", k, <<m>>, t) /\ db' = Nx("zrem", k, <<m>>, t).db
-ZRem2(k, m, n, t)   == Ok("zrem2", k, <<m, n>>, t) /\ db' = Nx("zrem2", k, <<m, n>>, t).db
+ZRem2(k, m, n, t)   == DupOk(m, n) /\ Ok("zrem2", k, <<m, n>>, t) /\ db' = Nx("zrem2", k, <<m, n>>, t).db
 ZRemRangeByRank(k, s, e, t) == Ok("zremrangebyrank", k, <<s, e>>, t) /\ db' = Nx("zremrangebyrank", k, <<s, e>>, t).db
 ZRemRangeByScore(k, lo, lk, hi, hk, t) == Ok("zremrangebyscore", k, <<lo, lk, hi, hk>>, t) /\ db' = Nx("zremrangebyscore", k, <<lo, lk, hi, hk>>, t).db
 ZRemRangeByLex(k, lo, lk, hi, hk, t) == Ok("zremrangebylex", k, <<lo, lk, hi, hk>>, t) /\ db' = Nx("zremrangebylex", k, <<lo, lk, hi, hk>>, t).db
@@ -189,9 +202,9 @@ NextZ ==
   \/ \E k \in FullKeys, t \in Times :
        \/ ZClear(k, t) \/ ZPersist(k, t)
        \/ \E s \in ZScores, m \in Subs : ZAdd(k, s, m, t)
-       \/ \E s, s2 \in ZScores, m, m2 \in Subs : DupOk(m, m2) /\ ZAdd2(k, s, m, s2, m2, t)
-       \/ \E m \in Subs : ZIncrBy(k, 1, m, t) \/ ZRem(k, m, t)
-       \/ \E m, n \in Subs : DupOk(m, n) /\ ZRem2(k, m, n, t)
+       \/ \E s, s2 \in ZScores, m, m2 \in Subs : ZAdd2(k, s, m, s2, m2, t)
+       \/ \E m \in Subs : ZIncrBy(k, 1, m, t) \/ ZIncrBy(k, 0, m, t) \/ ZRem(k, m, t)
+       \/ \E m, n \in Subs : ZRem2(k, m, n, t)
        \/ \E s, e \in {-1, 0, 1} : ZRemRangeByRank(k, s, e, t)
        \/ \E iv \in ZIv : ZRemRangeByScore(k, iv[1], iv[2], iv[3], iv[4], t)
        \/ \E iv \in LexIv : ZRemRangeByLex(k, iv[1], iv[2], iv[3], iv[4], t)
@@ -201,7 +214,10 @@ SpecZ == Init /\ [][NextZ]_vars
 -----------------------------------------------------------------------------
 \* local deletion: the background scan at the node's clock tick
 Scan(now) == db' = ScanEffect(db, ScanDue(db, now), now)
-NextLD == NextKV \/ NextH \/ \E now \in Times : Scan(now)
+NextLD == \/ \E k \in Keys, t \in Times :
+               \/ Set(k, V1, t) \/ Del(k, t) \/ Persist(k, t) \/ HSet(k, X1, V1, t) \/ HClear(k, t) \/ HDel(k, X1, t)
+               \/ \E d \in Durs : SetEx(k, d, V1, t) \/ Expire(k, d, t) \/ HExpire(k, d, t) \/ SetX(k, V1, d, 0, t)
+          \/ \E now \in Times : Scan(now)
 SpecLD == Init /\ [][NextLD]_vars
 
 -----------------------------------------------------------------------------
